@@ -20,9 +20,7 @@ fn rpj(ctx: &Ctx, sub: &str, idx: u64, extra: serde_json::Value) -> serde_json::
     json!({"monitor": ctx.prop, "sub": sub, "index": idx, "seed": ctx.seed, "tier": ctx.tier.name(), "case": extra})
 }
 
-pub fn experimental_compiled_in() -> bool {
-    flacenc::constant::build_info::FEATURES.split(',').any(|f| f.trim() == "experimental")
-}
+pub use crate::gen::experimental_compiled_in;
 
 /// The documented ranges, restated independently of the crate's `verify`.
 pub fn documented_valid(c: &config::Encoder) -> Result<(), &'static str> {
@@ -255,6 +253,13 @@ fn check_config(ctx: &Ctx, sub: &str, idx: u64, c: &config::Encoder, desc: &str,
         }
     }
     if !probes || want.is_err() || got.is_err() {
+        return;
+    }
+    // (pass `exp` only) the number of IRLS iterations is unbounded in an experimental build; a
+    // configuration asking for billions of them is accepted and would simply never finish:
+    // a cost bound of the workload, not a verdict
+    if c.subframe_coding.qlpc.mae_optimization_steps > 40 {
+        out.count("probes_skipped_iteration_count");
         return;
     }
     let v = c.clone().into_verified().unwrap();
